@@ -283,8 +283,84 @@ pub fn supports(rec: &mut Rec, nmax: usize) {
     }
 }
 
+
+/// Two polynomials in ONE commit call: every ordered pair (A, B) of three-monomial supports that differ in exactly one
+/// monomial (equal size, usually equal lowest and highest term, different interior), on the grids (2,3), (3,2) and (1,4);
+/// both members are opened and checked (true value accepted, value + 1 not).  A committer that carries anything from the
+/// previous member of the call into the next one is only visible with two different supports in one call.
+pub fn pairs_in_one_call(rec: &mut Rec) {
+    for (nv, d) in [(2usize, 3usize), (3, 2), (1, 4)] {
+        let cfg = KeyCfg::mv(nv, d, d);
+        let mons = exponent_vectors(nv, d);
+        let nm = mons.len();
+        let mut sups: Vec<Vec<usize>> = Vec::new();
+        for a in 0..nm {
+            for b in (a + 1)..nm {
+                for c in (b + 1)..nm {
+                    sups.push(vec![a, b, c]);
+                }
+            }
+        }
+        rec.scope(format!("PST pairs in one commit call: nv={}, D={}: {} three-monomial supports, ordered pairs differing in one monomial", nv, d, sups.len()));
+        let r = rho_stream::<Fr381>(rec.seed, 4, nm + 1);
+        let r2 = rho_stream::<Fr381>(rec.seed, 5, nm + 1);
+        let z = SPst::points(&cfg, rec.seed)[0].1.clone();
+        let mut keys: Option<Keys<SPst>> = None;
+        for (i, a) in sups.iter().enumerate() {
+            let id = format!("PST/pair-in-one-call/nv={}/D={}/first={:?}", nv, d, a).replace(' ', "");
+            if !rec.take(&id) {
+                continue;
+            }
+            rec.dim("grid", &format!("{}x{}", nv, d));
+            if keys.is_none() {
+                keys = build_keys::<SPst>(&cfg, rec.seed).ok();
+            }
+            let keys = match keys.as_ref() {
+                Some(k) => k,
+                None => return,
+            };
+            let mk = |sup: &Vec<usize>, rr: &Vec<Fr381>| mv_from_support(nv, &sup.iter().map(|i| mons[*i].clone()).collect::<Vec<_>>(), &sup.iter().map(|i| rr[*i]).collect::<Vec<_>>());
+            let mut bad: Option<String> = None;
+            for (j, b) in sups.iter().enumerate() {
+                if i == j || a.iter().filter(|x| b.contains(x)).count() != 2 {
+                    continue;
+                }
+                rec.count_points(1);
+                rec.op(5);
+                let c = match commit_set::<SPst>(keys, vec![lp::<SPst>("a", mk(a, &r), None, None), lp::<SPst>("b", mk(b, &r2), None, None)], rec.seed, 0) {
+                    Ok(c) => c,
+                    Err(o) => {
+                        bad.get_or_insert(format!("commit of {:?} then {:?} failed: {}", a, b, o.short()));
+                        continue;
+                    }
+                };
+                for k in [0usize, 1] {
+                    match open_single::<SPst>(keys, &c, &[k], &z, 0, rec.seed, 0) {
+                        Ok(s) => {
+                            let comms: Vec<&LCm<SPst>> = vec![&c.comms[k]];
+                            let dt = check_single::<SPst>(keys, &comms, &z, &s.values, &s.proof, 0, rec.seed, 0);
+                            let df = check_single::<SPst>(keys, &comms, &z, &[s.values[0] + Fr381::one()], &s.proof, 0, rec.seed, 0);
+                            if !dt.accepted() || df.accepted() {
+                                bad.get_or_insert(format!("supports {:?} then {:?} in one commit call: member {} -> true value {}, value+1 {}", a, b, k, dt.short(), df.short()));
+                            }
+                        }
+                        Err(o) => {
+                            bad.get_or_insert(format!("open of member {} failed: {}", k, o.short()));
+                        }
+                    }
+                }
+            }
+            rec.class(if bad.is_none() { "true-accepted" } else { "true-rejected" });
+            if let Some(b) = bad {
+                viol(rec, "check/mixed-monomials-rejected", &id, b);
+            }
+        }
+    }
+}
+
 pub fn run(rec: &mut Rec) {
     let t = rec.thorough();
     params(rec, 6, 6);
     supports(rec, if t { 4 } else { 3 });
+    pairs_in_one_call(rec);
 }
